@@ -198,7 +198,7 @@ fn stream_with_remaining(ccn: u64, rem: u64, exact_last: bool) -> (Vec<u8>, Vec<
     (s, plain)
 }
 
-/// Read + Seek source whose FIRST read after construction hands out at most 7 bytes
+/// Read + Seek source that hands out at most 7 bytes per read when switched on
 struct Throttle7 {
     c: Cursor<Vec<u8>>,
     reads: u32,
@@ -207,7 +207,8 @@ struct Throttle7 {
 impl Read for Throttle7 {
     fn read(&mut self, buf: &mut [u8]) -> std::io::Result<usize> {
         self.reads += 1;
-        let lim = if self.on && self.reads == 1 { buf.len().min(7) } else { buf.len() };
+        // natively EVERY read is short (std's loops cope; the number of calls std makes is not fixed)
+        let lim = if self.on { buf.len().min(7) } else { buf.len() };
         self.c.read(&mut buf[..lim])
     }
 }
@@ -381,13 +382,16 @@ fn enc_read() {
         corrupt(&mut bad, &f);
         // whatever the solver's flags: a sequential read that has to load the next chunk must reject
         // it when that chunk is altered (tag checked on EVERY load of the normal reader)
-        if v_u64("by_read", 0) == 1 && c < big_l {
+        // (tried at EVERY chunk edge of the stream, not only at the solver's offset: at the very end
+        //  of the stream an unauthenticated load has nothing to expose)
+        let mut edge = ch();
+        while edge < big_l {
             let mut l2 = EncryptionLayerInternal::new(Box::new(Cursor::new(good.clone())), &reader_cfg(v_u64("mode", 1) == 0)).unwrap();
             l2.seek(SeekFrom::Start(0)).unwrap();
-            let mut sink = vec![0u8; c as usize];
+            let mut sink = vec![0u8; edge as usize];
             l2.read_exact(&mut sink).unwrap();
             let mut alt = good.clone();
-            let at = ((c / ch()) * cts()) as usize;
+            let at = ((edge / ch()) * cts()) as usize;
             alt[at] ^= 0x40;
             let ipos2 = l2.inner.position();
             l2.inner = Box::new(Cursor::new(alt));
@@ -395,9 +399,10 @@ fn enc_read() {
             let mut b2 = vec![0u8; blen.max(1)];
             if let Ok(k) = l2.read_internal(&mut b2) {
                 if k > 0 {
-                    return Some(format!("sequential read across the chunk edge at {c} returned {k} bytes of a chunk whose ciphertext was altered (repair-only option {} in the reader configuration)", if v_u64("mode", 1) == 0 { "set" } else { "not set" }));
+                    return Some(format!("sequential read across the chunk edge at {edge} returned {k} bytes of a chunk whose ciphertext was altered (repair-only option {} in the reader configuration)", if v_u64("mode", 1) == 0 { "set" } else { "not set" }));
                 }
             }
+            edge += ch();
         }
         let ipos = l.inner.position();
         l.inner = Box::new(Cursor::new(bad));
@@ -574,6 +579,20 @@ fn enc_seek_total() {
     report(r);
 }
 
+struct OneByteSink(Vec<u8>);
+impl Write for OneByteSink {
+    fn write(&mut self, buf: &[u8]) -> std::io::Result<usize> {
+        if buf.is_empty() {
+            return Ok(0);
+        }
+        self.0.push(buf[0]);
+        Ok(1)
+    }
+    fn flush(&mut self) -> std::io::Result<()> {
+        Ok(())
+    }
+}
+
 /// real writer fed in the solver's pieces, decoded by an INDEPENDENT AES-256-GCM (aes-gcm crate)
 /// chunk by chunk with nonce = archive nonce || BE32(chunk index)
 #[test]
@@ -587,7 +606,8 @@ fn enc_writer() {
         let total = first + blen;
         let plain = plain_of(total);
         let cfg = EncryptionConfig { ecc_keys: Vec::new(), key: KEY, nonce: NONCE };
-        let mut w = Box::new(EncryptionLayerWriter::new(Box::new(RawLayerWriter::new(Vec::new())), &cfg).unwrap());
+        // destination accepting ONE byte per write: the layer has to use write_all everywhere
+        let mut w = Box::new(EncryptionLayerWriter::new(Box::new(RawLayerWriter::new(OneByteSink(Vec::new()))), &cfg).unwrap());
         w.write_all(&plain[..first as usize]).unwrap();
         let mut done = first as usize;
         while done < total as usize {
@@ -598,7 +618,7 @@ fn enc_writer() {
             done += n;
         }
         w.finalize().unwrap();
-        let out = w.into_raw();
+        let out = w.into_raw().0;
         let chunks = if total == 0 { 1 } else { (total + ch() - 1) / ch() };
         if out.len() as u64 != total + 16 * chunks {
             return Some(format!("{} bytes emitted for {total} plaintext bytes: format says one 16-byte tag per {}-byte chunk ({} expected)", out.len(), ch(), total + 16 * chunks));
